@@ -10,7 +10,7 @@ import re
 import sys
 import time
 import traceback
-from typing import Any, Callable, Dict, Iterable, List, Optional
+from typing import Any, Callable, Dict, Iterable, List, Optional, Tuple
 
 from .symx import Stats
 
@@ -48,7 +48,10 @@ def _call(chunk: List[Any]) -> List[Any]:
             out.append(("skipped", item, None))
             continue
         try:
+            t0 = time.time()
             out.append(("ok", item, _FN(item)))  # type: ignore[misc]
+            if os.environ.get("VERIF_SLOW") and time.time() - t0 > float(os.environ["VERIF_SLOW"]):
+                print(f"SLOW {time.time() - t0:.1f}s {item!r}"[:300], file=sys.stderr, flush=True)
         except BaseException as e:  # harness bug: never a property verdict
             out.append(("error", item, "".join(traceback.format_exception(type(e), e, e.__traceback__))[-3000:]))
     return out
@@ -187,6 +190,29 @@ def match_known(v: Violation, known: List[Dict[str, Any]]) -> Optional[Dict[str,
         if ok:
             return e
     return None
+
+
+def isolated_replay(prop: str, rec: Dict[str, Any]) -> Tuple[bool, str]:
+    """Replay a record in a fresh interpreter (used when the in-process replay is poisoned by state that the code
+    under test kept from the symbolic run, e.g. a proxy stored in a module-level object)."""
+    import subprocess
+    import tempfile
+
+    with tempfile.NamedTemporaryFile("w", suffix=".json", delete=False, dir=os.path.join(ROOT, "replays")) as f:
+        json.dump({"property": prop, "replay": rec}, f, default=str)
+        path = f.name
+    try:
+        p = subprocess.run([sys.executable, "-B", "-m", "vf.cli", prop, "--replay", path], cwd=ROOT, stdout=subprocess.PIPE,
+                           stderr=subprocess.STDOUT, text=True, timeout=120)
+        line = next((l for l in p.stdout.splitlines() if l.startswith("REPRODUCED")), "")
+        return p.returncode == 1 and bool(line), line[len("REPRODUCED "):]
+    except Exception as e:
+        return False, f"isolated replay failed: {e}"
+    finally:
+        try:
+            os.unlink(path)
+        except OSError:
+            pass
 
 
 def write_replay(v: Violation) -> str:
